@@ -105,6 +105,33 @@ def run(ctx):
                 ctx.violation("build_registry", [list(inc), list(exc)], m or f"registry built after other builds in the same process: {names[:6]}... != {want[:6]}...")
     finally:
         shutil.rmtree(tmp, ignore_errors=True)
+    # build_registry over generated custom directories (always including the ones that yield NO searcher: empty directory, only empty / blank-line files,
+    # nested ones): keyword part = one searcher per non-empty file of THAT directory, decoder part = the selected marked functions; nothing of the shipped keywords
+    from registry_common import materialise
+    zero = [[[], []], [[["api", b""], ["key", b"\n\r\n\n"]], []], [[["api", b"\r\n"]], [["sub_d", [[["zz", b""], ["net.proto", b"\n"]], []]]]], [[], [["e_d", [[], []]]]]]
+    some = [t for t in trees if not expected_searchers(t)][:10] + trees[: ctx.budget(25, 200)]
+    for t in zero + some:
+        tmp = tempfile.mkdtemp(prefix="verif_c18_")
+        try:
+            materialise(t, tmp)
+            inc = ctx.rng.choice([None, ["chr"], ["base64", "hex"]])
+            reg = build_registry(tmp, include=inc)
+            ctx.evals += 1
+            kws = sorted(((f.args[0], frozenset(f.args[1])) for f in reg if not hasattr(f, "__name__")), key=lambda x: (x[0], sorted(x[1])))
+            decs = [f.__name__ for f in reg if hasattr(f, "__name__")]
+            if kws != expected_searchers(t):
+                ctx.violation("build_registry", [t, inc], f"custom keyword directory: {len(kws)} keyword searchers {[k[0] for k in kws][:8]}, its non-empty files give {[k[0] for k in expected_searchers(t)]}")
+            elif decs != [f.__name__ for f in get_analyzers(include=inc)]:
+                ctx.violation("build_registry", [t, inc], f"custom keyword directory changed the decoder part: {decs[:5]}")
+            else:
+                ctx.count("build_registry_dir:%s" % ("none" if not kws else "some"))
+        finally:
+            shutil.rmtree(tmp, ignore_errors=True)
+    missing = os.path.join(tempfile.gettempdir(), "verif_c18_does_not_exist")
+    reg = build_registry(missing, include=["chr"])
+    ctx.evals += 1
+    if [getattr(f, "__name__", "kw") for f in reg] != ["find_chr"]:
+        ctx.violation("build_registry", ["missing-dir"], "a keyword directory that does not exist yields keyword searchers")
 
 
 def search(ctx):
